@@ -8,7 +8,7 @@ statement (total work <= c*|src| on every family) is NOT proved (`C20.Statement`
 measurement on the implementation.
 Tie: dispatch counts of every real block loop (<= lines of its range) and evaluation/hit counts of
 the real skipToken cache (evaluations <= posMax per state) are recorded on the implementation.
-Oracle: for each of ~55 scalable families, Python-level calls into markdown_it (sys.setprofile) at
+Oracle: for each of ~70 scalable families, Python-level calls into markdown_it (sys.setprofile) at
 L, 2L, 4L: doubling the input at most roughly doubles the work, on both presets; nesting beyond
 maxNesting is cut.  Known finding D9: runs of reference definitions are quadratic.
 """
@@ -20,7 +20,7 @@ from .common import Ctx, Finding
 from . import gens, monitor
 
 RULE = (
-    "55 scalable families (brackets, emphasis/strike delimiter runs incl. rule-of-3 and mixed opener/closer runs, "
+    "70 scalable families (brackets, emphasis/strike delimiter runs incl. rule-of-3 and mixed opener/closer runs, "
     "backtick strings, entities, angle brackets, quote/list markers, lazy lines, table rows, reference definitions, "
     "typographer triggers, ...) x lengths L, 2L, 4L (L = 300 characters quick, 6000 thorough) x 2 presets; a case is "
     "(family, preset); work = number of executed source lines and calls inside markdown_it during render (sys.settrace); non-trivial = "
@@ -46,7 +46,13 @@ FAM = {
     "code-lines": lambda n: "    a\n" * n, "divs": lambda n: "<div>\n" * n, "deep-mix": lambda n: "> - " * n + "a", "list-items": lambda n: "- a\n" * n,
     "nested-list-lines": lambda n: "".join(" " * (2 * (i % 10)) + "- a\n" for i in range(n)), "emph-link": lambda n: "*[a](b)" * n,
     "unclosed-link-title": lambda n: '[a](b "' * n, "autolinks": lambda n: "<http://a> " * n,
+    "esc-bt": lambda n: "\\``` x " * n, "esc-bt2": lambda n: "\\`` `x " * n,
 }
+# the same inline material behind an unclosed '[' / '![' : it is walked a second time in silent mode (link label scan)
+for _k in ("bt-lens", "bt-a", "star-a", "ent", "lt-a", "bs-a", "autolinks", "esc-bt", "esc-bt2", "tilde", "quotes", "mixed-runs"):
+    FAM["lb-" + _k] = (lambda f: (lambda n: "[" + f(n)))(FAM[_k])
+FAM["img-esc-bt"] = lambda n: "![" + "\\``` x " * n
+FAM["link-esc-bt"] = lambda n: "[" + "\\``` x " * n + "](/u)"
 KNOWN_QUADRATIC = {"refdefs", "refdef-nodest"}
 # families whose cost is (depth up to maxNesting) x length: linear only once the nesting is saturated (maxNesting = 100
 # under js-default), so they are measured at a larger L with the cheap metric (calls only)
@@ -133,7 +139,7 @@ def run(ctx: Ctx) -> None:
                 ctx.count((name, preset), nontrivial=per > 20)
                 if max(r1, r2) > 2.35:
                     kind = ("superlinear:reference-definitions" if name in KNOWN_QUADRATIC
-                            else "superlinear:smartquotes-stack" if (name == "quotes" and opts.get("typographer")) else "superlinear")
+                            else "superlinear:smartquotes-stack" if (name in ("quotes", "lb-quotes") and opts.get("typographer")) else "superlinear")
                     ctx.fail(kind, f"family {name}: doubling the input multiplies the work by {r1:.2f}, {r2:.2f} ({preset})",
                              {"family": name, "preset": preset, "lengths": [x[0] for x in c], "calls": [x[1] for x in c], "input": name})
             ctx.cov[f"ratios[{preset}]"] = table
@@ -191,7 +197,7 @@ def run(ctx: Ctx) -> None:
     ctx.partial += [
         "the global statement (total work <= c*|src| on every family: amortised analysis of processDelimiters, parseLinkLabel, "
         "the backtick cache, the reference rule) is not proved — C20.Statement; it is decided by measurement (call counts at "
-        "L, 2L, 4L on ~55 families x 2 presets); the guard mechanisms (depth cut, one dispatch per line, skipToken memo) are "
+        "L, 2L, 4L on ~70 families x 2 presets); the guard mechanisms (depth cut, one dispatch per line, skipToken memo) are "
         "theorems",
     ]
 
